@@ -58,6 +58,7 @@ func c05Keys(tier string) []int {
 type c05Issuer struct {
 	name string
 	raw  []byte
+	ca   bool // issued by keys.CA(): issuer differs from subject
 }
 
 func c05Issuers() []c05Issuer {
@@ -70,10 +71,11 @@ func c05Issuers() []c05Issuer {
 	}
 	name := func(rdns ...*der.Node) []byte { return der.Cons(0x30, rdns...).Encode() }
 	return []c05Issuer{
-		{"short", name(rdn(atv(oidCN, 0x13, "a")))},
-		{"long (>127 bytes)", name(rdn(atv(oidC, 0x13, "NO")), rdn(atv(oidO, 0x13, strings.Repeat("Long Organisation Name ", 9))), rdn(atv(oidCN, 0x13, "signer")))},
-		{"multi-valued RDN", name(rdn(atv(oidCN, 0x13, "mv"), atv(oidO, 0x13, "org")), rdn(atv(oidCN, 0x13, "leaf")))},
-		{"UTF8String", name(rdn(atv(oidO, 0x0c, "Ünïcödé Örg")), rdn(atv(oidCN, 0x0c, "ключ")))},
+		{"short", name(rdn(atv(oidCN, 0x13, "a"))), false},
+		{"long (>127 bytes)", name(rdn(atv(oidC, 0x13, "NO")), rdn(atv(oidO, 0x13, strings.Repeat("Long Organisation Name ", 9))), rdn(atv(oidCN, 0x13, "signer"))), false},
+		{"multi-valued RDN", name(rdn(atv(oidCN, 0x13, "mv"), atv(oidO, 0x13, "org")), rdn(atv(oidCN, 0x13, "leaf"))), false},
+		{"UTF8String", name(rdn(atv(oidO, 0x0c, "Ünïcödé Örg")), rdn(atv(oidCN, 0x0c, "ключ"))), false},
+		{"issued by a CA (issuer != subject)", name(rdn(atv(oidCN, 0x13, "leaf signer"))), true},
 	}
 }
 
@@ -86,7 +88,11 @@ func c05Serials() []*big.Int {
 func c05Cert(k int, iss c05Issuer, serial *big.Int) (*x509.Certificate, error) {
 	tmpl := &x509.Certificate{SerialNumber: serial, RawSubject: iss.raw, NotBefore: keys.NotBefore, NotAfter: keys.NotAfter,
 		SignatureAlgorithm: x509.SHA256WithRSA, KeyUsage: x509.KeyUsageDigitalSignature, BasicConstraintsValid: true}
-	d, err := x509.CreateCertificate(rand.Reader, tmpl, tmpl, &keys.K(k).PublicKey, memoSignerFor(k))
+	parent, signer := tmpl, memoSignerFor(k)
+	if iss.ca {
+		parent, signer = keys.CA(), memoSignerFor(2)
+	}
+	d, err := x509.CreateCertificate(rand.Reader, tmpl, parent, &keys.K(k).PublicKey, signer)
 	if err != nil {
 		return nil, err
 	}
@@ -278,7 +284,8 @@ func c05Check(c *hx.Ctx, k int, cert *x509.Certificate, ty c05Type, content []by
 		}
 		c.Outcome("openssl-agrees")
 	}
-	// library's own parser and verifier
+	// library's own parser and verifier (which must not modify the caller's bytes)
+	pristine := append([]byte{}, blob...)
 	var lp *pkcs7.PKCS7
 	var lok bool
 	if pn := hx.Try(func() {
@@ -288,6 +295,10 @@ func c05Check(c *hx.Ctx, k int, cert *x509.Certificate, ty c05Type, content []by
 		}
 	}); pn != nil || err != nil || !lok {
 		bad("library's own verifier", "does not accept the output", map[string]any{"error": fmt.Sprint(err, pn)})
+		return
+	}
+	if !bytes.Equal(blob, pristine) {
+		bad("library's own parser", "modifies the signature bytes it was given (a later verifier sees a corrupted blob)", nil)
 		return
 	}
 	if !lp.OID.Equal(ty.oid) || len(lp.Certs) != 1 || !bytes.Equal(lp.Certs[0].Raw, cert.Raw) || len(lp.SignerInfo) != 1 ||
